@@ -35,7 +35,7 @@ TRUSTED = ['A1 float == real: the accuracy ENVELOPE for non-polynomial f under r
            'contracts composed: C06 (rule exact to its order, residual powers), C07 (Richardson), C13 (dea3), C08 (selection), '
            'C10 (generator), C12 (Bicomplex consumers); pinv instantiated by the exact rational inverse',
            'z3 / cvc5 as deciders']
-ASSUMPTIONS = ['steps positive and geometric (generator contract); f finite at the evaluation points']
+ASSUMPTIONS = ['steps positive and geometric (generator contract: re-discharged on the real Min/Max generators in contract:generator[..]); f finite at the evaluation points']
 NOT_DECIDED = ['the per-(method, n) relative accuracy envelope for general real-analytic f (a quantitative statement about IEEE '
                'arithmetic and adaptive step selection)']
 BOUNDED = ['integer-x: integer-typed x (4 concrete x, n = 1..3, all methods) compared with float x -- executed with the real numpy, not proved']
@@ -93,6 +93,13 @@ def contract_groups(tier):
     # library accepts": multicomplex stops at n = 2 -- beyond that it must refuse, not return numbers)
     out.append(('contract:rule-cache-at-import', ('dep', 'C06', 'run_cache0', (), {})))
     out.append(('contract:accepted-orders[multicomplex]', ('dep', 'C11', 'run_mcn', (), {})))
+    # "every configuration the library accepts": a step sequence shorter than the rule must be refused, not turned into numbers
+    out.append(('contract:accepted-step-counts', ('dep', 'C11', 'run_steps', (), {})))
+    # the value groups run on a contract stub of the step generator (positive geometric steps with the reported ratio): the
+    # real Min/Max generators are shown to produce exactly that here (generator shared with C10)
+    for kind in ('Min', 'Max'):
+        for part in range(4):
+            out.append(('contract:generator[%s,%d]' % (kind, part), ('dep', 'C10', 'run_seq', (kind, part, tier), {})))
     return out
 
 
@@ -225,6 +232,24 @@ def run_value(method, n, orders, terms, ratios):
                 solve.fact(tag + 'E:f_value-is-f(x)', len(pa) == len(pb) and all(u.eq(w) for u, w in zip(pa, pb)))
                 if order == orders[0] and rt == terms[0] and ratio == ratios[0] and not cplxf:
                     solve.twin(tag + 'value==f^(n+1)(x)', lift(v).t == b[n + 1].t if n + 1 <= Dg else z3.BoolVal(False), H)
+                    # ---- history: the same object after it was used with n = 0 (and another order), then set to n through the
+                    # public properties, gives what a fresh object gives
+                    gen2 = Gen(K, ratio)
+                    d2 = core.Derivative(frec, step=gen2, method=method, n=0, order=order, richardson_terms=rt, full_output=True)
+                    with warnings.catch_warnings():
+                        warnings.simplefilter('ignore')
+                        p0 = explore(lambda: d2(x), pre=[z3.Real('h0') > 0], max_paths=8, catch=(Exception,))
+                        d2.n = n
+                        d2.fd_rule.apply = apply_stub
+                        p2 = explore(lambda: d2(x), pre=[z3.Real('h0') > 0], max_paths=8, catch=(Exception,))
+                    ok2 = len(p0) == 1 and p0[0].exc is None and len(p2) == 1 and p2[0].exc is None
+                    solve.fact(tag + 'history[n=0-then-n=%d]:runs-on-a-single-path' % n, ok2, note=str([repr(p.exc)[:160] for p in p0 + p2 if p.exc][:1]))
+                    if ok2:
+                        v2 = asobj(p2[0].value[0]).ravel()[0]
+                        pv2 = all_parts(v2)
+                        if len(pv2) != len(pl):
+                            pv2 = parts(C.lift(lift(v2)))
+                        solve.prove(tag + 'history[n=0-then-n=%d]:value==f^(n)(x)' % n, z3.And(*[u == w for u, w in zip(pv2, pl)]), p2[0].hyps + S2)
     finally:
         overlay.PINV_EXACT[0] = False
     return info
@@ -309,7 +334,7 @@ def run_group(args):
     return run_zero()
 
 
-CONTRACT_ORIGIN = [('contract:rule-cache-at-import/', 'C06', 'cache-base-case/'), ('contract:accepted-orders[multicomplex]/', 'C11', 'multicomplex-n/'), ('contract:rule[', 'C06', 'cfg['), ('contract:best-estimate[', 'C08', 'best-estimate['), ('contract:elementwise[', 'C08', 'deriv['),
+CONTRACT_ORIGIN = [('contract:rule-cache-at-import/', 'C06', 'cache-base-case/'), ('contract:accepted-orders[multicomplex]/', 'C11', 'multicomplex-n/'), ('contract:accepted-step-counts/', 'C11', 'steps/'), ('contract:generator[', 'C10', 'seq['), ('contract:rule[', 'C06', 'cfg['), ('contract:best-estimate[', 'C08', 'best-estimate['), ('contract:elementwise[', 'C08', 'deriv['),
                    ('contract:bicomplex[', 'C12', None)]
 
 
